@@ -57,8 +57,8 @@ CLAIMED = {
               '(transforming writers never report a partial count); PENDING-PAIR (every absolute move of the LZ encoder read limit '
               're-processes the pending bytes on all paths) and LOOKAHEAD-TWIN (one look-ahead reserve: limit formula, its guard, '
               'the window-move trigger and the buffer-size formula agree).',
-              'BCJWriter tail handling across write calls (known defect by reading, no rule built), numeric relations of the LZ '
-              'window beyond the two structural rules.'),
+              'numeric relations of the LZ window beyond the two structural rules. TAIL-FORWARD (a transforming writer never forwards '
+              'the tail its transform did not process) reports the BCJWriter defect as a known finding.'),
     'C08': _c('static: ordering/guard rules on the four MT pipelines + control-byte value sets',
               'SEQ-ORDER (hand-out only on seq == next, reorder map keyed by seq, one increment per hand-out/dispatch), CTRL-SETS '
               '(MT cutter cuts exactly at the ST reader\'s dictionary-reset values, same classes and header lengths), '
